@@ -41,7 +41,7 @@ def valid_packet(rng, n, checksum=None):
     to be the first half of a marker (a receiver must not pair it with a following 0x55)."""
     for _ in range(5000):
         src = rng.randrange(1, 250)
-        data = bytes([n & 0xFF, rng.randrange(256), rng.randrange(0x7F), 0xFF, 0x7F, 0xFF, 0x7F, 0xFD])
+        data = bytes([n % 253, rng.randrange(256), rng.randrange(0x7F), 0xFF, 0x7F, 0xFF, 0x7F, 0xFD])      # (SID 253..255 is outside the field's range)
         p = wire.usb_frame(wire.can_id(2, 127250, src, 255), data)
         if b"\xaa\x55" in p[2:]:
             continue
